@@ -30,6 +30,10 @@ structure HCtx where
   /-- a dumped state already violated a structural / Delaunay spec: everything later in this
   history is a consequence and is not judged (the violation itself has been reported) -/
   tainted : Bool := false
+  /-- the history contains vertices whose positions were computed in floating point by the library
+  (Steiner points of `refine`, split points of `add_constraint_and_split`): such points lie on
+  their segment only up to rounding, so hull convexity is judged with a rounding slack from then on -/
+  floatVerts : Bool := false
 deriving Inhabited
 
 def stEq (a b : St) : Bool :=
@@ -80,7 +84,13 @@ def checkState (h : HCtx) (s : St) (opProps : String) : List Fail :=
     chk (decide s.ChainOK) (p "C02,C14") "ChainOK" (fun _ => "")
    else
     chk (decide (1 < s.nF)) (p "C02") "TwoDimensional" (fun _ => "not collinear but no inner face") ++
-    chk (decide s.HullConvex) (p "C02,C14") "HullConvex" (fun _ => "") ++
+    (if h.floatVerts then
+      let ext : Int := s.pos.foldl (fun acc q => max acc (max (q.x.natAbs : Int) (q.y.natAbs : Int))) 0
+      let slack := ext * ext / 2 ^ (if h.scalar == "f32" then 16 else 40)
+      chk ((List.range s.nE).all fun e => s.fc e != 0 ||
+            (List.range s.nV).all fun v => decide (orient (s.A e) (s.B e) (s.P v) ≤ slack))
+        (p "C02,C14") "HullConvexUpToRounding" (fun _ => "")
+     else chk (decide s.HullConvex) (p "C02,C14") "HullConvex" (fun _ => "")) ++
     chk (decide s.NoVertexInsideEdge) (p "C02,C14") "NoVertexInsideEdge" (fun _ => "") ++
     chk (decide s.facesDisjoint) (p "C02") "FacesDisjoint" (fun _ => "") ++
     chk (decide s.AreaOK) (p "C02") "AreaOK" (fun _ => s!"{s.sumFaces} vs {- s.sumHull}")) ++
@@ -198,6 +208,20 @@ def judge (h : HCtx) (op res : Array String) (dump : Option St) : HCtx × List F
   let s := h.cur
   let bad := fun (why : String) => (h, [(⟨"INTERNAL", "protocol", s!"{name}: {why}"⟩ : Fail)])
   -- finishing a mutating step: compare with A, check all specs, adopt the new state
+  -- context note for removals (signature feature of finding K3)
+  let rmNote : String :=
+    if name == "rm" || name == "trm" then
+      match parseNat (op.getD 1 "") with
+      | some i => if (List.range s.nE).any (fun e => s.org e == i && s.isFlag e) then " removed_has_constraint=1" else " removed_has_constraint=0"
+      | none => ""
+    else if name == "lrm" then
+      match parsePt (op.getD 1 "") (op.getD 2 "") with
+      | some p =>
+        match h.abs.find p with
+        | some i => if (List.range s.nE).any (fun e => s.org e == i && s.isFlag e) then " removed_has_constraint=1" else " removed_has_constraint=0"
+        | none => ""
+      | none => ""
+    else ""
   let finish := fun (h : HCtx) (a' : AState) (pre : List Fail) (opProps : String) =>
     match dump with
     | none => (h, pre ++ [⟨"INTERNAL", "protocol", s!"{name}: missing dump"⟩])
@@ -208,7 +232,7 @@ def judge (h : HCtx) (op res : Array String) (dump : Option St) : HCtx × List F
         { verts := if vertsMatch d a' then a'.verts
                    else ((List.range d.nV).map fun i => (d.P i, d.data.getD i 0)).toArray,
           cons := if !d.isCdt || consMatch d a' then a'.cons else flaggedSegs d }
-      let sf := checkState h d opProps
+      let sf := (checkState h d opProps).map fun f => { f with detail := f.detail ++ rmNote }
       ({ h with abs := a'', cur := d, lastLoc := none, tainted := !sf.isEmpty },
         pre ++ checkAbs d a' opProps ++ sf)
   match name with
